@@ -27,6 +27,15 @@ TabU6 == <<
   E("X", {},    2, "n", 0, TRUE,  1, 0),    \* 5  eth nonce 1
   E("X", {},    1, "n", 0, TRUE,  1, 0)     \* 6  eth nonce 1 again
 >>
+\* universe U5 (quick exhaustive run)
+TabU5 == <<
+  E("A", {},    1, "n", 0, FALSE, 0, 0),    \* 1
+  E("A", {"B"}, 2, "h", 2, FALSE, 0, 2),    \* 2  group, a member expires for the block at height 2
+  E("B", {},    2, "t", 0, FALSE, 0, 0),    \* 3  expires once the header time passes tick 0
+  E("X", {},    1, "n", 0, TRUE,  0, 0),    \* 4  eth nonce 0
+  E("X", {},    2, "n", 0, TRUE,  1, 0)     \* 5  eth nonce 1
+>>
+TwoDefects == {"sig", "blkfrom"}
 SendersABX == {"A", "B", "X"}
 AllDefects == {"sig", "fee", "to", "blkfrom", "blkto", "blkevm"}
 NoDefects == {}
